@@ -28,7 +28,10 @@
 //!                               an identity codec over Vec<u8> (6: arbitrary bytes, base64);
 //!                               variant bits: 1 blocking, 2 the named constructor of the encoding
 //!                               (new / new_str / new_miniserde / .. and their _blocking forms),
-//!                               4 Arc flavour on the server, 8 arena flavour in the browser;
+//!                               4 Arc flavour on the server, 8 arena flavour in the browser,
+//!                               16 the fetcher's future is ready from the start (the script says
+//!                               (7 k) right after the command), 32 the browser's context is
+//!                               HydrateSharedContext::default();
 //!                               logs (13 b wire): the string handed over, and whether the real
 //!                               browser-side construction of the resource under a hydrating
 //!                               context holding that string yields the value
@@ -469,6 +472,8 @@ const V_BLOCKING: i64 = 1;
 const V_NAMED: i64 = 2;
 const V_ARC_SERVER: i64 = 4;
 const V_ARENA_BROWSER: i64 = 8;
+const V_READY: i64 = 16;
+const V_BROWSER_DEFAULT: i64 = 32;
 
 type Kept = Box<dyn std::any::Any>;
 
@@ -540,8 +545,13 @@ where
     <Ser as Decoder<T>>::Encoded: FromEncodedStr,
 {
     use reactive_graph::traits::GetUntracked;
-    // what leptos::mount::hydrate_body constructs in the browser, `id` calls later
-    let real = HydrateSharedContext::new();
+    // what leptos::mount::hydrate_body constructs in the browser (or an application through
+    // `Default`), `id` calls later
+    let real = if variant & V_BROWSER_DEFAULT != 0 {
+        HydrateSharedContext::default()
+    } else {
+        HydrateSharedContext::new()
+    };
     for _ in 0..id {
         real.next_id();
     }
@@ -777,7 +787,11 @@ impl Session {
         let wire = Ser::encode(&value).unwrap().into_encoded_string();
         let back = hydrate_in_browser::<T, Ser>(kind, variant, 3, &wire);
         let entry = Lst(vec![Num(13), Sexp::bool(back.as_ref() == Some(&value)), cps(&wire)]);
-        let gate = if kind == 2 { Gate::default() } else { self.new_gate(payload) };
+        let gate = if kind == 2 { Gate::default() } else { self.new_gate(payload.clone()) };
+        if variant & V_READY != 0 {
+            // the fetcher's future is ready the first time anything polls it
+            gate.complete(payload);
+        }
         let arc = variant & V_ARC_SERVER != 0;
         Prepared {
             entry,
